@@ -20,6 +20,7 @@ import (
 	"crypto/ed25519"
 	"crypto/rsa"
 	"crypto/x509"
+	"encoding/json"
 	"errors"
 
 	"github.com/theparanoids/ysshra/config"
@@ -61,6 +62,13 @@ func m02MarshalAuthorizedKey(key ssh.PublicKey) []byte {
 }
 
 func m02JSONMarshal(v any) ([]byte, error) {
+	// encoding hooks of the value's type are honoured as encoding/json does
+	if m, ok := v.(json.Marshaler); ok {
+		return m.MarshalJSON()
+	}
+	if w := vRetype(v, (*keyid.KeyID)(nil)); w != nil {
+		v = w
+	}
 	k, ok := v.(*keyid.KeyID)
 	if !ok {
 		panic("m02JSONMarshal: unexpected type")
@@ -118,6 +126,8 @@ func H02_generate() {
 			HardKey: vNondetBool("claim-hardkey"), Touch2SSH: vNondetBool("claim-touch2ssh"),
 			TouchlessSudo: &message.TouchlessSudo{IsFirefighter: vNondetBool("claim-firefighter"), Hosts: vNondetString("claim-hosts", 1), Time: vNondetI64("claim-time")}},
 	}
+	// what the server side established, before any handler code saw it
+	orig := *param
 	validity := vNondetU64("validity")
 	ids := map[x509.PublicKeyAlgorithm]string{}
 	nIDs := vChoose(3, "identifiers")
@@ -170,7 +180,7 @@ func H02_generate() {
 		r := csrs[0]
 		vAssert(len(r.Principals) == 1, "C02.exactly-one-principal")
 		if len(r.Principals) == 1 {
-			vAssert(vEqString(r.Principals[0], param.LogName), "C02.principal-is-server-side-login-name")
+			vAssert(vEqString(r.Principals[0], orig.LogName), "C02.principal-is-server-side-login-name")
 		}
 		vAssert(r.Validity == validity, "C02.configured-validity")
 		vAssert(len(r.Extensions) == len(s02Extensions), "C02.default-extension-set")
@@ -209,11 +219,11 @@ func H02_generate() {
 			vAssert(r.KeyId == m02JSONOut[round], "C02.keyid-is-the-encoder-output")
 		}
 		pubs = append(pubs, r.PublicKey)
-		vAssert(len(kid.Principals) == 1 && vEqString(kid.Principals[0], param.LogName), "C02.keyid-principal")
-		vAssert(vEqString(kid.TransID, param.TransID), "C02.keyid-transaction-id")
-		vAssert(vEqString(kid.ReqIP, param.ClientIP), "C02.keyid-source-ip")
-		vAssert(vEqString(kid.ReqUser, param.ReqUser), "C02.keyid-client-user-verbatim")
-		vAssert(vEqString(kid.ReqHost, param.ReqHost), "C02.keyid-client-host-verbatim")
+		vAssert(len(kid.Principals) == 1 && vEqString(kid.Principals[0], orig.LogName), "C02.keyid-principal")
+		vAssert(vEqString(kid.TransID, orig.TransID), "C02.keyid-transaction-id")
+		vAssert(vEqString(kid.ReqIP, orig.ClientIP), "C02.keyid-source-ip")
+		vAssert(vEqString(kid.ReqUser, orig.ReqUser), "C02.keyid-client-user-verbatim")
+		vAssert(vEqString(kid.ReqHost, orig.ReqHost), "C02.keyid-client-host-verbatim")
 		vAssert(kid.Version == 1, "C02.keyid-version-1")
 		vAssert(!kid.IsFirefighter && !kid.IsHWKey && !kid.IsHeadless && !kid.IsNonce, "C02.keyid-regular-attributes")
 		vAssert(kid.Usage == 0 && kid.TouchPolicy == 1, "C02.keyid-all-usage-never-touch")
